@@ -10,6 +10,7 @@ import OxiddModel.Dddmp.Driver
 import OxiddModel.VarNames.Driver
 import OxiddModel.Circuit.Driver
 import OxiddModel.Ffi.Driver
+import OxiddModel.Locks.Driver
 
 open OxiddModel
 
@@ -28,6 +29,7 @@ def protos : List (String × Proto) := [
   ("names", OxiddModel.VarNames.proto),
   ("circ", OxiddModel.Circuit.proto),
   ("capi", OxiddModel.Ffi.proto),
+  ("locks", OxiddModel.Locks.proto),
   ("capi-before-fix", OxiddModel.Ffi.protoBeforeFix)
 ]
 
